@@ -218,7 +218,7 @@ pub fn run(ctx: &Ctx) -> (Stats, Report) {
 
     // YM: all values (thorough) / strided + windows (quick)
     let total = (2 * ymax + 1) as u64;
-    let stride: u64 = if ctx.thorough { 1 } else { 997 };
+    let stride: u64 = if ctx.thorough { 1 } else { 199 };
     let count = (total + stride - 1) / stride;
     let s = par_sweep(count, 1 << 18, |range, st| {
         for k in range {
@@ -258,7 +258,7 @@ pub fn run(ctx: &Ctx) -> (Stats, Report) {
     st.section("year_month_values", &mut mark);
 
     // DT values
-    let mut vals: Vec<i128> = pools::dt_pool(seed, if ctx.thorough { 8_000_000 } else { 1_000_000 });
+    let mut vals: Vec<i128> = pools::dt_pool(seed, if ctx.thorough { 40_000_000 } else { 3_000_000 });
     for unit in [US_PER_SEC, US_PER_MIN, US_PER_HOUR, US_PER_DAY] {
         for k in [1i128, 2, 3, 23, 24, 25, 59, 60, 61, 99, 100, 1000, 99_999_999] {
             for d in [-1i128, 0, 1] {
@@ -384,7 +384,7 @@ pub fn run(ctx: &Ctx) -> (Stats, Report) {
     let _ = ad::in_range;
 
     let rep = Report {
-        rule: format!("Year-month intervals: {} (plus +-3000 around zero and both limits); day-time intervals: every second within +-2 days (+0/+-1 us), every power of ten +-1, unit multiples +-1 us, range limits, {} seeded values on four magnitude scales; constructor validity grids with u32 extremes; out-of-range raw counts. Oracle: sign + div/rem decomposition of |value| in i128; constructors inverse and accepting exactly the well-formed tuples inside the symmetric range with the matching error kind; negation an involution onto the range; signed accessors = truncating division; ordering numeric. Non-trivial = negative, or within one unit of zero or of a limit, or a rejected tuple.", if ctx.thorough { "all 4,272,000,001 values" } else { "every 997th value" }, if ctx.thorough { "8,000,000" } else { "1,000,000" }),
+        rule: format!("Year-month intervals: {} (plus +-3000 around zero and both limits); day-time intervals: every second within +-2 days (+0/+-1 us), every power of ten +-1, unit multiples +-1 us, range limits, {} seeded values on four magnitude scales; constructor validity grids with u32 extremes; out-of-range raw counts. Oracle: sign + div/rem decomposition of |value| in i128; constructors inverse and accepting exactly the well-formed tuples inside the symmetric range with the matching error kind; negation an involution onto the range; signed accessors = truncating division; ordering numeric. Non-trivial = negative, or within one unit of zero or of a limit, or a rejected tuple.", if ctx.thorough { "all 4,272,000,001 values" } else { "every 199th value" }, if ctx.thorough { "40,000,000" } else { "3,000,000" }),
         assumptions: vec!["second() is compared with the correctly rounded double of (signed microseconds within the minute)/10^6".into()],
         exhaustive: false,
         extra: Default::default(),
